@@ -49,7 +49,7 @@ CRIT = {
     "ring": dict(max_d=[12.0, 12.0], min_d=[2.0, 2.0]),
     "wide": dict(max_x=[60.0, 60.0], max_y=[60.0, 60.0]),
 }
-THR = {"tight": [0.5, 0.5], "loose": [2.0, 2.0], "per_label": [0.5, 2.0]}
+THR = {"tight": [0.5, 0.5], "loose": [2.0, 2.0], "per_label": [0.5, 2.0], "zero": [0.0, 0.0]}
 POLICIES = ["DEFAULT", "ALLOW_UNKNOWN", "ALLOW_ANY"]
 
 
